@@ -1341,8 +1341,28 @@ func checkRename(ctx context.Context, r *simkit.Run, w *world, obs *sql.DB, step
 		}
 		ci := cand[t.Draw("rename-column", len(cand))]
 		to.Columns[ci].Name += "_rn"
-		changes = []schema.Change{&schema.ModifyTable{T: to, Changes: []schema.Change{&schema.RenameColumn{From: from.Columns[ci], To: to.Columns[ci]}}}}
+		inner := []schema.Change{&schema.RenameColumn{From: from.Columns[ci], To: to.Columns[ci]}}
 		what = "column " + from.Name + "." + from.Columns[ci].Name
+		// Sometimes the same change list first drops an index (one created by CREATE INDEX) that covers
+		// the column: in reverse order the column has its old name back before the index is re-created.
+		if t.Chance("drop-an-index-of-the-column-first", 1, 2) {
+			for k, ix := range from.Indexes {
+				covers := false
+				for _, p := range ix.Parts {
+					covers = covers || p.C == from.Columns[ci]
+				}
+				var n int
+				if !covers || obs.QueryRow("SELECT count(*) FROM sqlite_master WHERE type = 'index' AND name = ? AND sql IS NOT NULL", ix.Name).Scan(&n) != nil || n != 1 {
+					continue
+				}
+				inner = append([]schema.Change{&schema.DropIndex{I: ix}}, inner...)
+				to.Indexes = append(to.Indexes[:k:k], to.Indexes[k+1:]...)
+				what += " after dropping its index " + ix.Name
+				r.Probe("hand-written-rename/column-with-index-drop")
+				break
+			}
+		}
+		changes = []schema.Change{&schema.ModifyTable{T: to, Changes: inner}}
 	} else {
 		to.Name += "_rn"
 		changes = []schema.Change{&schema.RenameTable{From: from, To: to}}
@@ -1357,14 +1377,20 @@ func checkRename(ctx context.Context, r *simkit.Run, w *world, obs *sql.DB, step
 	if err != nil {
 		simkit.Harnessf("catalog: %v", err)
 	}
-	for i, c := range plan.Changes {
-		if _, err := w.db.ExecContext(ctx, c.Cmd, c.Args...); err != nil {
-			if i > 0 {
-				simkit.Harnessf("hand-written rename failed half way: %v (%s)", err, c.Cmd)
-			}
+	// Forward, all or nothing (what the engine refuses is not C17's subject).
+	tx, err := w.db.BeginTx(ctx, nil)
+	if err != nil {
+		simkit.Harnessf("begin: %v", err)
+	}
+	for _, c := range plan.Changes {
+		if _, err := tx.ExecContext(ctx, c.Cmd, c.Args...); err != nil {
+			tx.Rollback()
 			r.Probe("hand-written-rename-refused-by-the-engine")
 			return
 		}
+	}
+	if err := tx.Commit(); err != nil {
+		simkit.Harnessf("commit: %v", err)
 	}
 	r.Probe("hand-written-rename/" + strings.Fields(what)[0])
 	r.Logf("step %d: hand-written rename of %s: %s", step, what, strings.TrimSpace(planText(plan)))
